@@ -246,6 +246,13 @@ impl Tokens
 	}
 }
 
+/// Remove the opening and closing quote of a string literal's source.
+fn strip_quotes(source: &str) -> &str
+{
+	let source = source.strip_prefix('"').unwrap_or(source);
+	source.strip_suffix('"').unwrap_or(source)
+}
+
 pub(super) struct TokensBuffer<'buffer>
 {
 	num_tokens: usize,
@@ -544,7 +551,7 @@ impl Tokens
 			{
 				format!(
 					"<{base_token:?} src={:?} />",
-					get_source().trim_matches('"')
+					strip_quotes(get_source())
 				)
 			}
 			_ => format!("<{base_token:?} />"),
